@@ -5,6 +5,7 @@ import (
 	"encoding/json"
 	"errors"
 	"fmt"
+	"math"
 	"os"
 	"runtime"
 	"sort"
@@ -582,7 +583,8 @@ func tryParseType(str string) interface{} {
 	if v, err := strconv.ParseInt(str, 10, 64); err == nil {
 		return v
 	}
-	if v, err := strconv.ParseFloat(str, 64); err == nil {
+	if v, err := strconv.ParseFloat(str, 64); err == nil &&
+		!math.IsNaN(v) && !math.IsInf(v, 0) {
 		return v
 	}
 	if v, err := strconv.ParseBool(str); err == nil {
